@@ -138,7 +138,9 @@ def sample_shell_contract(G):
         nbd = I(res[1])
         out = [('post_len', pts.n == Vo.int('self.n_batch')),
                ('post_in_shell', A.forall_idx(
-                   pts.n, lambda j: M.good_row(b, idx, pts.at(j))))]
+                   pts.n, lambda j: M.good_row(b, idx, pts.at(j)))),
+               ('post_n_bound_is_the_number_of_proposals_drawn',
+                nbd == M.proposals(Vn.st) - M.proposals(Vo.st))]
         # only the sampled bound's proposal state / statistics flag change
         bb = z3.Const('b!q', M.Bound)
         out.append(('frame_other_bounds_sampling_state', z3.ForAll(
@@ -220,7 +222,11 @@ def sample_shell_contract(G):
                ('accumulated_rows_in_shell', A.forall_idx(
                    pa.flat.n, lambda j: M.good_row(b, idx, pa.flat.at(j)))),
                ('n_bound_counts', z3.And(nbd >= ns + idx_t.n, z3.Implies(
-                   idx == b.n - 1, nbd == ns + idx_t.n)))]
+                   idx == b.n - 1, nbd == ns + idx_t.n))),
+               # every proposal drawn from the bound is counted, also those of
+               # a draw that is rejected completely
+               ('n_bound_is_the_number_of_proposals_drawn',
+                nbd == M.proposals(V.st) - M.proposals(Vo.st))]
         bb = z3.Const('b!q', M.Bound)
         out.append(('only_this_bound_is_sampled', z3.ForAll(
             [bb], z3.Implies(bb != b.at(idx), z3.And(
@@ -268,9 +274,10 @@ def sample_shell_contract(G):
     c = FnContract(
         SQ + 'sample_shell', params=['index', 'shell_t'],
         defaults=dict(shell_t=None), pre=pre, post=post, result=result,
-        mod_ghost=['sstate', 'rng', 'statfresh'], mod_args=['shell_t'],
+        mod_ghost=['sstate', 'rng', 'statfresh', 'proposals'],
+        mod_args=['shell_t'],
         loops={0: LoopSpec(inv=inv0, prepare=prepare0,
-                           extra_mods=['$statfresh']),
+                           extra_mods=['$statfresh', '$proposals']),
                1: LoopSpec(inv=inv1),
                2: LoopSpec(inv=inv2, prepare=prepare2)})
     return c
